@@ -8,6 +8,8 @@
   and by the file-vs-memory comparison at every write of real runs (`harness/c05.py`).
 -/
 import NautilusVerif.Lemmas.LoopLemmas
+import NautilusVerif.Model.Persist
+import NautilusVerif.Model.Core
 namespace NautilusVerif
 open Loop
 
@@ -35,6 +37,21 @@ theorem C05_stopAnywhere (m n f : Nat) (s : σ) (hn : ∀ k, k < n → guard cos
 /-- a run that has ended is not changed by being given more iterations -/
 theorem C05_idempotent (m f f' : Nat) (s : σ) (h : Stops step cost done m f s) (hf : f ≤ f') :
     runFuel step cost done m f' s = runFuel step cost done m f s := fuel_irrelevant step cost done m f f' s h hf
+
+/-- ... which restores the class of every bound, whatever the list of bounds is (in particular after the unit-cube shell
+    has been removed at the end of exploration) -/
+theorem C05_boundKinds (ks : List Persist.Kind) : Persist.loadKindsByTag (Persist.storeKinds ks) = ks := by
+  unfold Persist.loadKindsByTag Persist.storeKinds
+  induction ks with
+  | nil => rfl
+  | cons k ks ih => cases k <;> simp_all
+
+/-- the resume path as first found (first bound always read as a cube) does not: a sampler whose cube shell was removed -/
+theorem C05_legacy_boundKinds :
+    Persist.loadKindsByPosition (Persist.storeKinds [.nautilus, .nautilus]) ≠ [.nautilus, .nautilus] := by decide
+
+/-- and such states are reachable: the end of exploration drops an empty first shell, so the first bound is no longer bound 0 -/
+example : ((Core.endExploration { nBatch := 2, shells := [{ bound := 0 }, { bound := 1, pts := [0, 1], ls := [0, 1], bs := [0, 1], nSample := 2, nShown := 2 }] } false).shells.map (·.bound)) = [1] := by decide
 
 /-- non-vacuity: a counter that gains 3 per step, success at 20 -/
 example : runFuel (fun n : Nat => n + 3) id (fun n => decide (20 ≤ n)) 10 100 0 = 12 ∧
